@@ -51,11 +51,15 @@ def cases(shard, tier):
                         if (seq, idlen, ident) != (1, 1, '0') and nlf > 1 and (idlen not in (1, 65) or ident not in ('0', 'Z')):
                             continue
                         yield {'header': {'seq': seq, 'idlen': idlen, 'ident': ident, 'nlf': nlf}}
+                        # the same parameters handed over as a ready-made FileHeaderItem / StorageUnitLabel
+                        yield {'header': {'seq': seq, 'idlen': idlen, 'ident': ident, 'nlf': nlf, 'objects': True}}
         # identifier contents: digits only, blanks at either end, lower case, punctuation (must stay left-justified)
         for idtext in ('20240917', '7', '001', ' LEADING-BLANK', 'TRAILING-BLANK ', 'mixed Case 12', '-', '1e5', '+42'):
             for seq in (1, 7777777777):
                 for ident in ('0', '9', 'A'):
                     yield {'header': {'seq': seq, 'idtext': idtext, 'idlen': len(idtext), 'ident': ident, 'nlf': 1}}
+                    yield {'header': {'seq': seq, 'idtext': idtext, 'idlen': len(idtext), 'ident': ident, 'nlf': 1,
+                                      'objects': True}}
         return
     if shard['first'] is None:
         yield {'history': []}
@@ -75,7 +79,7 @@ def header_spec(hd):
         ops.append(S.op_origin(f'O{k}', f'ORIGIN-{k}', lf=L, **sn))
         ops.append(S.op_add('channel', f'C{k}', f'CH{k}', lf=L, data=S.arr_spec('uint8', [2], [1 + k, 2 + k]), **sn))
         ops.append(S.op_add('frame', f'F{k}', f'FR{k}', lf=L, channels=[{'$ref': f'C{k}'}], **sn))
-    return {'sul': {}, 'ops': ops, 'write': {}}
+    return {'sul': {}, 'ops': ops, 'write': {}, 'object_route': bool(hd.get('objects'))}
 
 
 def run_case(case):
